@@ -9,7 +9,7 @@ Simple ==
   { Op("ping", "", FALSE, "none", "none"), Op("reset", "", FALSE, "none", "none"),
     Op("open", "ok", FALSE, "none", "none"), Op("open", "bad", FALSE, "none", "none"),
     Op("open", "mixed", FALSE, "none", "none"), Op("open", "empty", FALSE, "none", "none"),
-    Op("open", "longbatch", FALSE, "none", "none"), Op("delete", "huge", FALSE, "none", "none"),
+    Op("open", "longbatch", FALSE, "none", "none"), Op("open", "max", FALSE, "none", "none"), Op("delete", "huge", FALSE, "none", "none"),
     Op("delete", "emptypath", FALSE, "none", "none"),
     Op("delete", "ok", FALSE, "none", "none"), Op("delete", "bad", FALSE, "none", "none"),
     Op("symlink", "ok", FALSE, "none", "none"), Op("symlink", "bad", FALSE, "none", "none"),
